@@ -289,6 +289,25 @@ func C16(p *core.Program, r *core.Report) {
 
 	// ---- Q6
 	checkHrefBase(p, r, "Q6")
+	// ---- Q7: "never an empty-host URL": both finders compare links with the scheme://host/ prefix
+	// of the page URL; for a page URL without a host that prefix is "scheme:///" and the links
+	// that pass are host-less themselves. Apply runs the finders only for a page URL with a host
+	// (ApplyForURL refuses such a URL anyway, L7): every FindPagination call is unreachable once
+	// the edges are removed on which the host is known to be non-empty.
+	if ap := mustInl(p, r, "Q7", core.ModPath+".Apply"); ap != nil {
+		cut, m := core.CutAtoms(p, ap, regexp.MustCompile(`^(.*\.OriginalURL\.Host|url\.URL\.Hostname\(.*\.OriginalURL\)) == ""$`), false)
+		n, bad := 0, 0
+		for _, call := range core.Calls(ap, func(ci ssa.CallInstruction) bool {
+			f := core.Callee(ci)
+			return f != nil && f.Name() == "FindPagination"
+		}) {
+			n++
+			if len(m) == 0 || core.InstrReachable(ap, cut, call) {
+				bad++
+			}
+		}
+		r.Add("Q7", "Apply looks for pagination links only when the page URL has a host", p.Pos(ap.Pos()), n >= 2 && bad == 0, fmt.Sprintf("%d FindPagination calls, %d reachable without the host test; tests found: %v", n, bad, m))
+	}
 
 	// ---- Q5: the same-site test of PrevNext compares with the rendering of scheme://host/ by
 	// UnescapedString: the trailing "/" of that prefix is what stops a look-alike host
